@@ -106,6 +106,18 @@ CHECKS = {
         ref="DESIGN.md section 6 C19",
         note="Two files (text and binary with CRLF / boundary-like bytes), trees of depth <= 2; the interleaving of the two concurrent service requests is not forced.",
         technique="TLA+ layout grammar + contract, TLC enumeration replayed as real multipart requests, TLC trace validation of what the services received"),
+    "C15": dict(
+        category="model_checking",
+        text="Introspect.tla: IntroOK - the schema the real ParallelRemoteSchemaIntrospector reconstructs from a spec-compliant introspection answer for S equals S in the abstract view (kinds, descriptions, fields with arbitrarily nested list/non-null wrappers, argument names/types/default values of every value kind, deprecations with and without reason, enum values and their deprecations, union members, interfaces, input fields and defaults, custom scalars, directives with arguments, defaults and locations, root operation type names); SchemaDiff names the first difference. S = a base schema + every set of at most two of 38 type-system features, all 742 enumerated by TLC; the answer is produced by the harness's own spec-compliant responder evaluating the introspection query the gateway sends.",
+        ref="DESIGN.md section 6 C15",
+        note="Fidelity checking with TLC as enumerator and contract evaluator, no interleavings; strings over a small alphabet; both sides compared through one projection of gqlparser schemas.",
+        technique="TLA+ contract (IntroOK/SchemaDiff) + TLC enumeration of feature sets replayed on the real introspector + TLC trace validation"),
+    "C16": dict(
+        category="model_checking",
+        text="Introspect.tla IntroOK on what (a) a standard client (the harness's reimplementation of buildClientSchema) and (b) a SECOND REAL GATEWAY's introspector rebuild from the real gateway's answer to the standard introspection query, compared with the schema the gateway was started with; __type(name:) by literal and by variable must equal the entry of __schema.types; for every root field: reported <=> an operation using it validates. Schemas: base + every set of at most two of 38 type-system features (742, enumerated by TLC).",
+        ref="DESIGN.md section 6 C16",
+        note="One service per gateway (merging is C03); mixed introspection + data operations are exercised by C07's shapes.",
+        technique="TLA+ contract + TLC enumeration of feature sets replayed on the real gateway (and a second gateway behind it) + TLC trace validation"),
 }
 
 PENDING = "not claimed yet: specification and binding for this property are still being built (DESIGN.md section 10 build order)"
